@@ -66,7 +66,7 @@ fn build(name: &str, variant: u32, iters: u32) -> ExecResult<Configuration<Spher
     Ok(match name {
         "ga" => {
             let (population_size, tournament_size, pm, deviation, pc) =
-                ([6, 10, 4, 2][v], [2, 3, 4, 2][v], [1.0, 0.5, 0.1, 0.0][v], [0.1, 1.0, 0.01, 0.5][v], [0.8, 1.0, 0.0, 0.5][v]);
+                ([6, 9, 5, 2][v], [2, 3, 4, 2][v], [1.0, 0.5, 0.1, 0.0][v], [0.1, 1.0, 0.01, 0.5][v], [0.8, 1.0, 0.0, 0.5][v]);
             Configuration::builder()
                 .do_(initialization::RandomSpread::new(population_size))
                 .evaluate_with::<A>()
@@ -165,13 +165,21 @@ fn build(name: &str, variant: u32, iters: u32) -> ExecResult<Configuration<Spher
         }
         "ls" => ls_config([3, 1, 6, 0][v], [0.1, 1.0, 0.01, 0.1][v], cond()),
         "ils" => {
-            let inner = ls_config([3, 1, 6, 0][v], [0.1, 1.0, 0.01, 0.1][v], LessThanN::iterations([2, 3, 1, 0][v]));
+            // as `real_ils` since 364645e: the scoped local search is the `ls` loop only
+            let inner: Box<dyn mahf::Component<P>> = ls::ls::<P, A>(
+                ls::Parameters {
+                    num_neighbors: [3, 1, 6, 0][v],
+                    neighbors: mutation::NormalMutation::new_dev([0.1, 1.0, 0.01, 0.1][v]),
+                    constraints: boundary::Saturation::new(),
+                },
+                LessThanN::iterations([2, 3, 1, 0][v]),
+            );
             Configuration::builder()
                 .do_(initialization::RandomSpread::new(1))
                 .evaluate_with::<A>()
                 .update_best_individual()
                 .do_(ils::ils::<P, A>(
-                    ils::Parameters { perturbation: mutation::PartialRandomSpread::new_full(), ls: inner.into_inner() },
+                    ils::Parameters { perturbation: mutation::PartialRandomSpread::new_full(), ls: inner },
                     cond(),
                 ))
                 .build()
@@ -195,7 +203,7 @@ fn build(name: &str, variant: u32, iters: u32) -> ExecResult<Configuration<Spher
         }
         "iwo" => {
             let (initial_population_size, max_population_size, min_number_of_seeds, max_number_of_seeds, initial_deviation, final_deviation, modulation_index): (u32, u32, u32, u32, f64, f64, u32) = (
-                [3, 2, 4, 1][v], [6, 5, 4, 1][v], [0, 1, 2, 0][v], [3, 1, 5, 1][v], [0.01, 0.1, 0.5, 0.1][v], [0.5, 1.0, 0.6, 0.2][v], [3, 1, 2, 1][v],
+                [3, 2, 4, 1][v], [6, 5, 4, 1][v], [0, 1, 2, 0][v], [3, 1, 5, 1][v], [0.5, 1.0, 0.6, 0.2][v], [0.01, 0.1, 0.6, 0.0][v], [3, 1, 2, 1][v],
             );
             Configuration::builder()
                 .do_(initialization::RandomSpread::new(initial_population_size))
